@@ -496,16 +496,19 @@ theorem start_summary (s : Sys) (c : Nat) (st : Start) (j : Nat) (hst : st.reset
     | commit j' slot op =>
       simp only []
       split
-      · simp
       · refine ⟨rfl, Nat.le_refl _, fun c' h => setClient_other _ _ _ _ h, Or.inr ⟨hnone, ?_, ?_, ?_⟩⟩
         · by_cases h : j' = j <;> simp [Client.pcOn, Client.onJ, Proc.onJ, h]
         · intro sl; simp
         · simp [Proc.resets]
+      · simp
     | bcommit pool slot branch adds dels =>
-      refine ⟨rfl, Nat.le_refl _, fun c' h => setClient_other _ _ _ _ h, Or.inr ⟨hnone, ?_, ?_, ?_⟩⟩
-      · by_cases h : pool = j <;> simp [Client.pcOn, Client.onJ, Proc.onJ, h]
-      · intro sl; simp
-      · simp [Proc.resets]
+      simp only []
+      split
+      · simp
+      · refine ⟨rfl, Nat.le_refl _, fun c' h => setClient_other _ _ _ _ h, Or.inr ⟨hnone, ?_, ?_, ?_⟩⟩
+        · by_cases h : pool = j <;> simp [Client.pcOn, Client.onJ, Proc.onJ, h]
+        · intro sl; simp
+        · simp [Proc.resets]
     | create =>
       refine ⟨rfl, by simp, fun c' h => by simp [setClient_other _ _ _ _ h], Or.inr ⟨hnone, ?_, ?_, ?_⟩⟩
       · simp [Client.pcOn, Client.onJ, Proc.onJ]
